@@ -475,7 +475,11 @@ def file_history_part(ck, L, G, order, n):
                  ["validate", "main2.nml"], ["is_valid", "main_good.nml"], ["is_valid", "main_good.nml"]],
                 [["is_valid", "shared.nml"], ["is_valid", "main1.nml"], ["validate", "main2.nml"], ["is_valid", "shared.nml"]],
                 [["validate", "main2.nml"], ["is_valid", "main2.nml"], ["is_valid", "good_shared.nml"], ["validate", "main_good.nml"],
-                 ["is_valid", "shared.nml"]]]}
+                 ["is_valid", "shared.nml"]],
+                # the global switch for build-time validation (documented to affect component_factory()/add() only)
+                [["switch", "disable"], ["is_valid", "main1.nml"], ["validate", "main1.nml"], ["is_valid", "shared.nml"],
+                 ["is_valid", "main_good.nml"], ["switch", "enable"], ["validate", "main2.nml"], ["switch", "disable"],
+                 ["validate", "shared.nml"], ["is_valid", "main2.nml"]]]}
     scs = [scenario("iaf_cells", T_("IafCell", id=s_("iaf0"), **dict(IAF, thresh=s_("-55 seconds"))), T_("IafCell", id=s_("iaf0"), **IAF))]
     # further violations: a checked facet of a random top-level component type
     tops = [e for e in L.own_elems(L.S["root"][1]) if e["kind"] == "objlist" and e["type"] in L.ct and e["tag"] != "include"]
@@ -587,13 +591,17 @@ def file_history_part(ck, L, G, order, n):
                                input={"files": sc["files"], "file": f}, expected=want, observed=got)
         for i, seq in enumerate(r["sequences"]):
             for j, (fn, f, v) in enumerate(seq):
+                if fn == "switch":
+                    continue
                 ck.count(1, nontrivial_key=("file-history", json.dumps(sc["files"][sorted(sc["files"])[0]], sort_keys=True)[:3000], f, i, j))
                 ck.tally("file-history-call:" + fn)
                 if v != fresh[f][fn]:
-                    ck.witness("C03:file-verdict-depends-on-history",
+                    ck.witness("C03:file-verdict-depends-on-build-time-validation-switch" if any(a == "switch" for a, _, _ in seq[:j])
+                               else "C03:file-verdict-depends-on-history",
                                "%s(%s) as call #%d of one process gives %s, in a fresh process %s (calls before it: %s)" % (
                                    {"is_valid": "is_valid_neuroml2", "validate": "validate_neuroml2"}[fn], f, j + 1, v, fresh[f][fn],
-                                   ", ".join("%s(%s)" % (a, b) for a, b, _ in seq[:j]) or "none"),
+                                   ", ".join(("neuroml.%s_build_time_validation()" % b) if a == "switch" else "%s(%s)" % (a, b)
+                                             for a, b, _ in seq[:j]) or "none"),
                                input={"files": sc["files"], "calls": [[a, b] for a, b, _ in seq[:j + 1]]},
                                expected=fresh[f][fn], observed=v)
         # the model (C03_file: is_valid f = false <-> validate (load f) true <> []) on what a fresh process loads
@@ -606,6 +614,149 @@ def file_history_part(ck, L, G, order, n):
                                "is_valid_neuroml2(%s)=%s but validate(recursive=True) of the loaded document %s" % (
                                    f, fresh[f]["is_valid"], ld["rec"]["raised"]), input={"files": sc["files"], "file": f})
     correspondence(ck, corr_c, corr_r, label="Cases_C03_files")
+
+
+FILE_PATH_RUNTIME = ("find_attr_value_", "_cast", "get_root_tag", "Tag_pattern_", "GDSClassesMapping", "GeneratedsSuper.gds_parse_string",
+                     "GeneratedsSuper.gds_parse_integer", "GeneratedsSuper.gds_parse_float", "GeneratedsSuper.gds_parse_double",
+                     "GeneratedsSuper.get_class_obj_", "template:build", "template:factory")
+
+
+def file_path_tie(ck, tab):
+    """C03_file reads 'load f' as: every attribute value of the file reaches the member unchanged.  The generateDS runtime
+    functions on that path are textually the ones C01's model of the reader was written against (lib/runtime_ref.json)"""
+    import os
+    from lib.vcommon import VERIF
+    ref = json.load(open(os.path.join(VERIF, "lib", "runtime_ref.json")))
+    for k in FILE_PATH_RUNTIME:
+        if k in ref:
+            ck.oblige("runtime:%s is the modelled one (file path of C03_file)" % k, tab["runtime"].get(k) == ref[k],
+                      "found: %s" % json.dumps(tab["runtime"].get(k))[:600], kind="instance")
+
+
+def padded_part(ck, L, G, per):
+    """deterministic file-level class: for every string-derived simple type with a pattern or an enumeration, a file the
+    real writer wrote whose ONLY violation is white space around one attribute value of that type (space, tab and newline
+    as character references, a literal newline), the component at depth 1-3 below the document, own and inherited
+    attributes (the inherited id first).  Oracle: libxml2 against the bundled XSD; the wrappers must reject."""
+    rng = ck.rng
+    root = L.S["root"][1]
+    hosts = {}
+    for c in L.T.order:
+        if c == root:
+            continue
+        steps = G.steps_to_document(c)
+        if steps is None or not 1 <= len(steps) <= 3:
+            continue
+        for a in L.all_attrs(c):
+            st = L.st[a["st"]]
+            if st["prim"] != "string" or not (st["patterns"] or st["enums"]) or a["fixed"] is not None:
+                continue
+            hosts.setdefault(a["st"], {}).setdefault(len(steps), []).append((c, a, steps))
+    cases = []
+    for stn in sorted(hosts):
+        for depth in sorted(hosts[stn]):
+            hs = hosts[stn][depth]
+            inh = [h for h in hs if h[1]["owner"] != h[0]]
+            chosen = [(inh or hs)[0]] + ([h for h in hs if h[1]["owner"] == h[0]][:1] if inh else [])
+            chosen += [rng.choice(hs) for _ in range(per)]
+            seen = set()
+            for c, a, steps in chosen:
+                if (c, a["py"]) in seen:
+                    continue
+                seen.add((c, a["py"]))
+                t = G.tree(c, 0)
+                kv = [x for x in t["kw"] if x[0] == a["py"]]
+                if not kv:
+                    kv = [[a["py"], G.good_value(a["st"], a["kind"])]]
+                    t["kw"].append(kv[0])
+                good = kv[0][1]["s"]
+                for _ in range(8):
+                    if good and good == good.strip() and all(32 <= ord(ch) < 127 and ch not in "<>&\"'" for ch in good):
+                        break
+                    good = G.good_value(a["st"], a["kind"])["s"]
+                else:
+                    continue
+                kv[0][1] = {"s": good}
+                doc, _ = G.embed(t, steps)
+                cases.append({"tree": doc, "tag": steps[0][1]["tag"], "attr": a["xml"], "good": good, "st": stn, "type": c,
+                              "member": a["py"], "depth": depth, "inherited": a["owner"] != c})
+    ck.extra["padded_attribute_simple_types"] = sorted(hosts)
+    res = ck.impl("c03_impl.py", {"mode": "padded", "cases": cases}, timeout=1500)["results"]
+    covered = set()
+    for cs, r in zip(cases, res):
+        if "err" in r:
+            ck.tally("padded:skipped:" + r["err"].split(":")[0])
+            continue
+        if not r.get("base_lx", {}).get("valid") or r.get("base_is_valid") is not True:
+            ck.tally("padded:skipped:unpadded-file-not-valid")
+            continue
+        for v in r["variants"]:
+            if v["lx"]["valid"]:
+                ck.tally("padded:skipped:libxml2-accepts-the-padded-value")
+                continue
+            covered.add(cs["st"])
+            ck.tally("padded:depth:%d" % cs["depth"])
+            ck.tally("padded:" + ("inherited" if cs["inherited"] else "own") + "-attribute")
+            ck.count(1, nontrivial_key=("padded", cs["st"], cs["type"], cs["member"], cs["depth"], v["pad"]))
+            if v["is_valid"] is True or v["validate"] == "no exception":
+                ck.witness("C03:file-with-padded-attribute-value-accepted",
+                           "a file whose only violation is white space (%s) around %s/@%s (type %s, %s, depth %d) - libxml2: %s - "
+                           "is accepted: is_valid_neuroml2 -> %s, validate_neuroml2 -> %s, validate(recursive=True) of the loaded "
+                           "document -> %s; in the file: %s" % (
+                               v["pad"], cs["type"], cs["attr"], cs["st"], "inherited" if cs["inherited"] else "own", cs["depth"],
+                               (v["lx"]["err"] or "")[:160], v["is_valid"], v["validate"], v["loaded_rec"], v["snippet"]),
+                           input={"padded": {k: cs[k] for k in ("tree", "tag", "attr", "good", "st", "type", "member", "depth", "inherited")},
+                                  "pad": v["pad"]}, expected=False, observed=v["is_valid"])
+    missing = sorted(set(hosts) - covered)
+    ck.extra["padded_simple_types_without_a_rejected_variant"] = missing
+    ck.oblige("padded-attributes:every-string-derived-simple-type-exercised", len(missing) <= len(hosts) // 10,
+              "no padded file rejected by libxml2 for: " + ", ".join(missing), kind="harness")
+
+
+SWITCHES = (["disable"], ["disable", "enable"], ["disable", "enable", "disable"])
+
+
+def switch_part(ck, order, pc, pres, limit):
+    """the verdicts with neuroml.disable_build_time_validation() in force (and after toggling it) are the verdicts with
+    the default: a deterministic subset - the first detected violation per (depth, facet, document or component), the
+    first accepted conforming-looking cases - evaluated again, file wrappers included"""
+    sel, keys = [], set()
+    for cs, r in zip(pc, pres):
+        if "obj_err" in r or "rec" not in r or "lx" not in r:
+            continue
+        k = (cs["depth"], cs["facet"], bool(cs.get("doc")), r["rec"]["raised"], r["lx"]["valid"])
+        if k in keys:
+            continue
+        keys.add(k)
+        sel.append((cs, r))
+    sel.sort(key=lambda x: (x[1]["rec"]["raised"] is None, not x[0].get("doc")))
+    sel = sel[:limit]
+    cases = [dict(cs, switch=sw) for cs, _ in sel for sw in SWITCHES]
+    res = ck.impl("c03_impl.py", {"order": order, "cases": cases, "want": ["rec", "nonrec", "file"]}, timeout=1500)["results"]
+    i = 0
+    for cs, r0 in sel:
+        for sw in SWITCHES:
+            r = res[i]
+            i += 1
+            ck.tally("switch:" + "-".join(sw))
+            ck.tally("switch:depth:%d" % cs["depth"])
+            ck.count(1, nontrivial_key=("switch", cs["type"], cs["member"], cs["facet"], cs["depth"], "-".join(sw))
+                     if r0["rec"]["raised"] == "ValueError" else None)
+            diffs = []
+            for k, label in (("rec", "validate(recursive=True)"), ("nonrec", "validate()")):
+                a, b = r0.get(k, {}), r.get(k, {})
+                if k in r0 and (a.get("raised") != b.get("raised") or a.get("msgs") != b.get("msgs")):
+                    diffs.append("%s: %s by default, %s with the switch" % (label, a.get("raised") or "accepts", b.get("raised") or "accepts"))
+            for k, label in (("file_valid", "is_valid_neuroml2"), ("file_validate", "validate_neuroml2")):
+                if k in r0 and r0.get(k) != r.get(k):
+                    diffs.append("%s of the written file: %s by default, %s with the switch" % (label, r0.get(k), r.get(k)))
+            if diffs:
+                how = "; ".join("neuroml.%s_build_time_validation()" % x for x in sw)
+                ck.witness("C03:verdict-depends-on-build-time-validation-switch",
+                           "after %s (documented to affect component_factory()/add() only) the verdict on a tree whose %s.%s violates "
+                           "'%s' at depth %d changes: %s" % (how, cs["type"], cs["member"], cs["facet"], cs["depth"], "; ".join(diffs)),
+                           input=dict({k: cs[k] for k in ("tree", "tag", "doc", "type", "member", "facet", "depth") if k in cs}, switch=sw),
+                           expected=r0["rec"]["raised"], observed=r.get("rec", {}).get("raised"))
 
 
 def judge(ck, L, cs, r):
@@ -666,7 +817,8 @@ def run(ck):
     if tab is None:
         return
     schemagen.runtime_tie(ck, tab)
-    mode = schemagen.validate_mode(ck)
+    file_path_tie(ck, tab)
+    mode = schemagen.validate_mode(ck, switch_obligation=True)
     ck.extra["validate_recursion_variant"] = mode
     if not schemagen.gen_validate(ck, tab, mode):
         return
@@ -745,6 +897,8 @@ def run(ck):
     # the recursion reaches the children held by every (parent class, child member) pair (complete over the pairs)
     ck.oblige("recursion:reaches-the-children-of-every-(parent, member)-pair", not missed,
               "violating child not seen under: " + ", ".join(sorted(set(missed))[:12]), kind="instance")
+    switch_part(ck, order, pc, pres, ck.n(90, 600))
+    padded_part(ck, L, G, ck.n(0, 3))
     file_history_part(ck, L, G, order, ck.n(1, 8))
     # the violated trees are correspondence cases as well (a seeded part of them in the quick tier)
     sub = list(zip(pc, pres))
@@ -767,6 +921,19 @@ def replay(ck, data):
         rows = [{"call": "%s(%s)" % (fn, f), "in this sequence": v, "in a fresh process": fresh.get(f, {}).get(fn)} for fn, f, v in seq]
         print(json.dumps({"stored": {k: data.get(k) for k in ("key", "what")}, "now": rows, "error": r.get("err")}, indent=1)[:6000])
         return 1 if any(x["in this sequence"] != x["in a fresh process"] for x in rows) else 0
+    if "padded" in inp:
+        r = ck.impl("c03_impl.py", {"mode": "padded", "cases": [inp["padded"]]})["results"][0]
+        rows = [{"pad": v["pad"], "libxml2": v["lx"], "is_valid_neuroml2": v["is_valid"], "validate_neuroml2": v["validate"],
+                 "validate(recursive=True) of the loaded document": v["loaded_rec"], "in the file": v["snippet"]} for v in r.get("variants", [])]
+        print(json.dumps({"stored": {k: data.get(k) for k in ("key", "what")}, "now": rows, "error": r.get("err")}, indent=1)[:6000])
+        return 1 if any(not x["libxml2"]["valid"] and (x["is_valid_neuroml2"] is True or x["validate_neuroml2"] == "no exception") for x in rows) else 0
+    if "switch" in inp:
+        r0, r = ck.impl("c03_impl.py", {"order": order, "cases": [dict(inp, switch=[]), inp], "want": ["rec", "nonrec", "file"]})["results"]
+        rows = {k: {"default switch": (r0.get(k) or {}).get("raised") if isinstance(r0.get(k), dict) else r0.get(k),
+                    "after " + ", ".join(inp["switch"]): (r.get(k) or {}).get("raised") if isinstance(r.get(k), dict) else r.get(k)}
+                for k in ("rec", "nonrec", "file_valid", "file_validate") if k in r0}
+        print(json.dumps({"stored": {k: data.get(k) for k in ("key", "what")}, "now": rows}, indent=1)[:6000])
+        return 1 if any(len(set(json.dumps(x) for x in v.values())) > 1 for v in rows.values()) else 0
     if "files" in inp and "file" in inp:
         r = ck.impl("c03_impl.py", {"mode": "filehistory", "order": order, "scenarios": [{"files": inp["files"], "sequences": []}]})["results"][0]
         now = r.get("fresh", {}).get(inp["file"])
